@@ -133,4 +133,20 @@ theorem lookupConverterFunc_follows_source (env : Env) (sc : Scope) (name : Stri
       simp [lookupConverterOn, hp, hr, hv] <;>
       (cases env.isErrorType e <;> simp)
 
+/-! ## `createVar` -/
+
+/-- **`createVar` follows the source**: a parameter without a name, or with the blank name, gets the
+default name; type, pointer-ness and external flag are those of the declared type (C08) -/
+theorem createVar_follows_source (env : Env) (v : ParamVar) (defName : String) :
+    createVar env v defName =
+      (let rest (name : String) : Var :=
+         { name := name, typ := env.typeNameF (env.derefPtr v.ty), pointer := env.isPtr v.ty,
+           external := env.isExternal (env.derefPtr v.ty) }
+       match Generated.Decisions.createVar (v.name == "") (v.name == "_") with
+       | "name=defName; return gmodel.Var{ Name: name, Type: p.imports.TypeName( …#e47304d3" => rest defName
+       | "return gmodel.Var{ Name: name, Type: p.imports.TypeName(typ), Pointer: …#30e539a2" => rest v.name
+       | _ => rest "?") := by
+  unfold createVar Generated.Decisions.createVar
+  cases h0 : (v.name == "") <;> cases h1 : (v.name == "_") <;> simp
+
 end Convergen.Bridge.Decisions
